@@ -152,6 +152,8 @@ class Engine:
         self.inline_stack: list[str] = []
         self.ghost = {}
         self.warn_log = []  # ghost log of warnings.warn calls on this path
+        self.used_lemmas = set()
+        self.cur_frame = None
         from . import models
 
         self.models = models
@@ -236,6 +238,15 @@ class Engine:
     def prove(self, label, cond, kind="assert", note=""):
         """Emit a named obligation pc => cond, then continue assuming cond."""
         name = f"{self.prop}/{label}"
+        hints = self.cur_contract.options.get("hints") if self.cur_contract is not None else None
+        if hints and not getattr(self, "_in_hint", False):
+            for suffix, fn in hints.items():
+                if label.endswith(suffix):
+                    self._in_hint = True
+                    try:
+                        fn(self, self.visible_vars())
+                    finally:
+                        self._in_hint = False
         if isinstance(cond, bool):
             goal = z3.BoolVal(cond)
         else:
@@ -247,6 +258,16 @@ class Engine:
         note = (note + " " if note else "") + (f"[variant {self.variant}]" if getattr(self, "variant", "") else "")
         self.obligs.append(Oblig(name, list(self.pc), goal, kind, note))
         self.pc.append(goal)
+
+    def visible_vars(self):
+        d = {}
+        chain, f = [], getattr(self, "cur_frame", None)
+        while f is not None:
+            chain.append(f)
+            f = f.parent
+        for f in reversed(chain):
+            d.update(f.vars)
+        return d
 
     # ------------------------------------------------------------ scalar ops
     def truth(self, v):
@@ -381,7 +402,7 @@ class Engine:
             return self.sqrt(a)
         raise Unsupported(f"power with exponent {b!r}")
 
-    def sqrt(self, a):
+    def sqrt(self, a, nonneg_known=False):
         """y = sqrt(a): fresh y with y >= 0 and y*y == a (a >= 0 is an obligation)."""
         if not isinstance(a, Sym):
             fa = frac(a)
@@ -392,8 +413,10 @@ class Engine:
                 if isqrt(n) ** 2 == n and isqrt(d) ** 2 == d:
                     return Fraction(isqrt(n), isqrt(d))
         za = to_z3(a, "real")
-        if not self.spec_mode:
+        if not self.spec_mode and not nonneg_known:
             self.prove(self.site("sqrt-nonneg"), za >= 0, "safety")
+        elif nonneg_known:
+            self.assume(za >= 0)  # argument is syntactically a sum of squares
         key = ("sqrt", za.get_id())
         if key in self.ghost:
             return self.ghost[key]
